@@ -151,6 +151,26 @@ def Args.nonIdem : Args → Bool
   | .col _ as => as.nonIdem
 end
 
+/-- column names inside `( … )`, then `)` -/
+def renderCols : List Ident → List Tok → List Tok
+  | [], rest => k tkRparen :: rest
+  | [a], rest => idt a :: k tkRparen :: rest
+  | a :: b :: more, rest => idt a :: k tkComma :: renderCols (b :: more) rest
+
+/-- `INSERT INTO [ks.]table (columns) VALUES (terms) <anything>`; `valuesKw` is the word VALUES as written (any letter
+case), `tail` whatever follows the closing parenthesis (IF NOT EXISTS, USING …, `;`, the next child of a batch) -/
+structure Insert where
+  ks : Option Ident
+  table : Ident
+  cols : List Ident
+  valuesKw : Ident
+  vals : Terms
+  tail : List Tok
+
+def Insert.render (i : Insert) : List Tok :=
+  k tkInsert :: k tkInto :: renderName i.ks i.table
+    (k tkLparen :: renderCols i.cols (idt i.valuesKw :: k tkLparen :: i.vals.renderElems (k tkRparen :: i.tail)))
+
 /-- the lexer `L` yields the tokens `ts` from position `p` on, one position per token -/
 def At (L : Lexer) : Nat → List Tok → Prop
   | _, [] => True
